@@ -30,9 +30,11 @@ pub enum Doc {
     /// exactly what palette wrote
     Serialized,
     /// a hand-written JSON object: key order, alpha position, whitespace (struct-shaped cases)
-    Object { order: u8, alpha_pos: u8, spaces: bool, unknown_key_at: Option<u8> },
+    /// `nums`: how the peer writes numbers — 0 as serde_json does, 1 whole-valued floats as integers (what
+    /// JavaScript's `JSON.stringify` produces: `{"red":1,"green":0,"blue":0.5,"alpha":1}`), 2 exponent notation
+    Object { order: u8, alpha_pos: u8, spaces: bool, unknown_key_at: Option<u8>, #[serde(default)] nums: u8 },
     /// the compact sequence form `[c0, c1, c2, alpha]`
-    Array { spaces: bool },
+    Array { spaces: bool, #[serde(default)] nums: u8 },
     /// the document lacks the alpha entry
     MissingAlpha { array: bool },
     /// the alpha key appears twice
@@ -449,8 +451,9 @@ impl World for C20 {
                         alpha_pos: if rng.chance(1, 3) { 255 } else { rng.below(5) as u8 },
                         spaces: rng.chance(1, 2),
                         unknown_key_at: if rng.chance(1, 5) { Some(rng.below(5) as u8) } else { None },
+                        nums: *rng.pick(&[0u8, 0, 1, 2]),
                     },
-                    7 if c.shape != Shape::Hue && c.shape != Shape::Unit => Doc::Array { spaces: rng.chance(1, 2) },
+                    7 if c.shape != Shape::Hue && c.shape != Shape::Unit => Doc::Array { spaces: rng.chance(1, 2), nums: *rng.pick(&[0u8, 0, 1, 2]) },
                     8 if has_alpha && c.shape != Shape::Unit => Doc::MissingAlpha { array: !struct_like || rng.chance(1, 2) },
                     9 if has_alpha && struct_like => Doc::DuplicateAlpha,
                     _ => Doc::Serialized,
@@ -464,7 +467,7 @@ impl World for C20 {
                     0 => Doc::Serialized,
                     1 if struct_like => Doc::MissingAlpha { array: false },
                     2 if c.shape != Shape::Unit => Doc::MissingAlpha { array: true },
-                    _ if struct_like => Doc::Object { order: rng.below(5) as u8, alpha_pos: rng.below(5) as u8, spaces: false, unknown_key_at: None },
+                    _ if struct_like => Doc::Object { order: rng.below(5) as u8, alpha_pos: rng.below(5) as u8, spaces: false, unknown_key_at: None, nums: *rng.pick(&[0u8, 1, 2]) },
                     _ => Doc::Serialized,
                 };
                 (Kind::JsonOptional { doc }, false)
@@ -979,13 +982,29 @@ fn perm<T>(v: &mut Vec<T>, order: u8) {
 fn json_doc(c: &CaseDesc, vals: &[f64], doc: &Doc) -> Option<String> {
     let has_alpha = c.wrapper != Wrapper::None;
     let ncolor = if has_alpha { c.nvals - 1 } else { c.nvals };
-    let nums: Vec<String> = match c.color {
-        // user shapes mix f32 / f64 fields; all generated values are exact in both
-        _ => vals[..c.nvals].iter().enumerate().map(|(j, v)| fmt_scalar(c, j, *v)).collect(),
+    let style = match doc {
+        Doc::Object { nums, .. } | Doc::Array { nums, .. } => *nums,
+        _ => 0,
     };
+    // user shapes mix f32 / f64 fields; all generated values are exact in both
+    let nums: Vec<String> = vals[..c.nvals]
+        .iter()
+        .enumerate()
+        .map(|(j, v)| {
+            let float = !scalar_of(c, j).starts_with('u');
+            match style {
+                // whole-valued floats written as integers
+                1 if float && v.fract() == 0.0 && v.abs() < 9.0e15 => format!("{}", *v as i64),
+                // exponent notation (the digits are the shortest ones of the scalar type, so the value is exact)
+                2 if float && scalar_of(c, j) == "f32" => format!("{:e}", *v as f32),
+                2 if float => format!("{:e}", *v),
+                _ => fmt_scalar(c, j, *v),
+            }
+        })
+        .collect();
     match doc {
         Doc::Serialized => None,
-        Doc::Object { order, alpha_pos, spaces, unknown_key_at } => {
+        Doc::Object { order, alpha_pos, spaces, unknown_key_at, .. } => {
             if c.shape != Shape::Struct {
                 return None;
             }
@@ -1003,7 +1022,7 @@ fn json_doc(c: &CaseDesc, vals: &[f64], doc: &Doc) -> Option<String> {
             let body: Vec<String> = entries.iter().map(|(k, v)| format!("\"{k}\"{colon}{v}")).collect();
             Some(format!("{open}{}{close}", body.join(sep)))
         }
-        Doc::Array { spaces } => {
+        Doc::Array { spaces, .. } => {
             if matches!(c.shape, Shape::Hue | Shape::Unit) || (matches!(c.shape, Shape::Newtype | Shape::UnitType) && !has_alpha) {
                 return None; // those are bare values in JSON, not sequences
             }
